@@ -176,4 +176,123 @@ Section Bounds.
     intros Hw. unfold bookkeep. destruct (adaptive _ o); [|reflexivity].
     replace (Nat.ltb (window _ o) step) with false by (symmetry; apply Nat.ltb_ge; exact Hw). reflexivity.
   Qed.
+  (* ---------- whole histories ---------- *)
+  Definition entry_ok (x : option (R * R)) : Prop :=
+    match x with
+    | Some (dt, tn) => 0 < dt <= dt_max_eff OpsR o /\ 0 < tn <= dt_max_eff OpsR o
+    | None => True
+    end.
+
+  (* C12: in every history, whatever is refused and whatever the dynamics do, every step used and every proposal
+     lies in (0, dt_max] *)
+  Theorem all_steps_bounded : forall l s step, Inv s -> Forall entry_ok (ahist OpsR o s step l).
+  Proof.
+    induction l as [|[refuse dof] tl IH]; intros s step HI; cbn [ahist]; [constructor|].
+    destruct (astep OpsR o s step refuse dof) as [[dt s']|] eqn:E.
+    - destruct (dt_positive_bounded s step refuse dof dt s' HI E) as (A & _ & B).
+      constructor; [cbn; split; [exact A|exact B]|apply IH; exact B].
+    - constructor; [exact I|constructor].
+  Qed.
+
+  (* C12: with adaptivity off every step of every history equals dt_init *)
+  Theorem fixed_steps_all : forall l s step,
+    adaptive _ o = false -> tentative _ s = dt_init _ o ->
+    Forall (fun x => match x with Some (dt, tn) => dt = dt_init _ o /\ tn = dt_init _ o | None => True end)
+           (ahist OpsR o s step l).
+  Proof.
+    induction l as [|[refuse dof] tl IH]; intros s step Ha Ht; cbn [ahist]; [constructor|].
+    destruct (astep OpsR o s step refuse dof) as [[dt s']|] eqn:E.
+    - destruct (fixed_step s step refuse dof dt s' Ha Ht E) as [A B]. subst s'.
+      constructor; [split; [exact A|exact Ht]|apply IH; assumption].
+    - constructor; [exact I|constructor].
+  Qed.
+
+  (* ---------- a stationary state (nothing refused, |psi|^2 does not change) ---------- *)
+  Definition zeros (s : astate OpsR) : Prop := Forall (fun x => x = 0) (dvals _ s).
+
+  Lemma fold_zeros : forall (l : list R) acc, Forall (fun x => x = 0) l -> fold_left Rplus l acc = acc.
+  Proof.
+    induction l as [|x tl IH]; intros acc H; [reflexivity|]. inversion H; subst. cbn [fold_left].
+    rewrite IH by assumption. lra.
+  Qed.
+  Lemma mean_zeros (l : list R) : Forall (fun x => x = 0) l -> mean OpsR l = 0.
+  Proof.
+    intros H. unfold mean. cbn [o_add o_div o_of_Z OpsR]. rewrite fold_zeros by exact H. unfold Rdiv. lra.
+  Qed.
+  Lemma lastn_Forall {A} (P : A -> Prop) n : forall l, Forall P l -> Forall P (lastn n l).
+  Proof.
+    induction l as [|x tl IH]; intros H; cbn [lastn].
+    - destruct (Nat.leb (length (@nil A)) n); exact H.
+    - destruct (Nat.leb (length (x :: tl)) n); [exact H|]. inversion H; subst. apply IH. assumption.
+  Qed.
+
+  Hypothesis Hadapt : adaptive _ o = true.
+  (* the largest step is not larger than what a vanishing |d|psi|^2| proposes (defaults: 1e-10 floor) *)
+  Hypothesis Hreach : dt_max _ o <= 1/2 * (dt_init _ o / floor_ _ o).
+
+  Definition stat : (R -> bool) * (R -> R) := (fun _ => false, fun _ => 0).
+
+  Lemma stat_step s step :
+    Inv s -> zeros s ->
+    astep OpsR o s step (fst stat) (snd stat)
+    = Some (tentative _ s, {| tentative := if Nat.ltb (window _ o) step then dt_max _ o else tentative _ s;
+                              dvals := dvals _ s ++ [0] |}).
+  Proof.
+    intros [I1 I2] Hz. unfold astep, euler_dt. rewrite Nat.add_comm. cbn [plus retry stat fst snd negb].
+    f_equal. f_equal. unfold bookkeep. rewrite Hadapt.
+    destruct (Nat.ltb (window _ o) step); [|reflexivity].
+    f_equal. rewrite clip0_spec, omax_Rmax. cbn [o_add o_mul o_div OpsR]. rewrite Hhalf.
+    rewrite mean_zeros by (apply lastn_Forall, Forall_app; split; [exact Hz|repeat constructor]).
+    rewrite (Rmax_left (floor_ _ o) 0) by lra.
+    unfold dt_max_eff. rewrite Hadapt.
+    assert (Hq : 0 < dt_init _ o / floor_ _ o) by (apply Rdiv_lt_0_compat; assumption).
+    rewrite Rmax_left by lra. apply Rmin_right. lra.
+  Qed.
+
+  (* C17/C12: in a stationary state the step stays at its proposal during the warm-up window and is the configured
+     maximum from the first step after it: the explicit list of (dt used, next proposal) *)
+  Fixpoint stat_hist (tn : R) (step n : nat) : list (option (R * R)) :=
+    match n with
+    | 0%nat => []
+    | S n' => let tn' := if Nat.ltb (window _ o) step then dt_max _ o else tn in
+              Some (tn, tn') :: stat_hist tn' (S step) n'
+    end.
+  Theorem stationary_history : forall n s step,
+    Inv s -> zeros s -> ahist OpsR o s step (repeat stat n) = stat_hist (tentative _ s) step n.
+  Proof.
+    induction n as [|n IH]; intros s step HI Hz; [reflexivity|].
+    cbn [repeat stat_hist]. change (stat :: repeat stat n) with ((fst stat, snd stat) :: repeat stat n).
+    cbn [ahist]. rewrite (stat_step s step HI Hz). cbn [tentative]. f_equal.
+    apply IH.
+    - unfold Inv in *. cbn [tentative]. destruct (Nat.ltb (window _ o) step); [|exact HI].
+      unfold dt_max_eff. rewrite Hadapt. lra.
+    - unfold zeros in *. cbn [dvals]. apply Forall_app. split; [exact Hz|repeat constructor].
+  Qed.
+  (* ... hence from the start of a run: dt = dt_init up to step window+1, dt_max ever after *)
+  Theorem dt_grows_to_max n i :
+    (i < n)%nat ->
+    nth_error (ahist OpsR o (ainit OpsR o) 0 (repeat stat n)) i
+    = Some (Some (if Nat.ltb (S (window _ o)) i then dt_max _ o else dt_init _ o,
+                  if Nat.ltb (window _ o) i then dt_max _ o else dt_init _ o)).
+  Proof.
+    intros Hi. rewrite stationary_history; [|apply Inv_init|constructor].
+    cbn [ainit tentative].
+    assert (G : forall n step tn i, (i < n)%nat ->
+              (tn = if Nat.ltb (S (window _ o)) step then dt_max _ o else dt_init _ o) ->
+              nth_error (stat_hist tn step n) i
+              = Some (Some (if Nat.ltb (S (window _ o)) (step + i) then dt_max _ o else dt_init _ o,
+                            if Nat.ltb (window _ o) (step + i) then dt_max _ o else dt_init _ o))).
+    { clear n i Hi. induction n as [|n IH]; intros step tn i Hi Htn; [lia|].
+      cbn [stat_hist]. destruct i as [|i].
+      - cbn [nth_error]. rewrite Nat.add_0_r. rewrite Htn. f_equal. f_equal. f_equal.
+        destruct (Nat.ltb_spec (window _ o) step) as [H|H]; [reflexivity|].
+        destruct (Nat.ltb_spec (S (window _ o)) step); [lia|reflexivity].
+      - cbn [nth_error]. replace (step + S i)%nat with (S step + i)%nat by lia. apply IH; [lia|].
+        destruct (Nat.ltb_spec (window _ o) step) as [H|H].
+        + destruct (Nat.ltb_spec (S (window _ o)) (S step)); [reflexivity|lia].
+        + destruct (Nat.ltb_spec (S (window _ o)) (S step)); [lia|].
+          rewrite Htn. destruct (Nat.ltb_spec (S (window _ o)) step); [lia|reflexivity]. }
+    apply (G n 0%nat (dt_init _ o) i Hi).
+    destruct (Nat.ltb_spec (S (window _ o)) 0); [lia|reflexivity].
+  Qed.
 End Bounds.
